@@ -173,6 +173,11 @@ def _variants():
         add(nm, "float", "fp_line", lambda m, a, k, nm=nm: getattr(m["M"], nm)(a, mask=k, footprint=m["M"].strel_line(5, 45)))
         add(nm, "float", "fp_1x3", lambda m, a, k, nm=nm: getattr(m["M"], nm)(a, mask=k, footprint=np.ones((1, 3), bool)))
         add(nm, "float", "fp_5x3", lambda m, a, k, nm=nm: getattr(m["M"], nm)(a, mask=k, footprint=np.ones((5, 3), bool)))
+    for nm in "grey_erosion grey_dilation opening closing white_tophat black_tophat".split():
+        add(nm, "float", "fp_2x2", lambda m, a, k, nm=nm: getattr(m["M"], nm)(a, mask=k, footprint=np.ones((2, 2), bool)))
+        add(nm, "float", "fp_corners", lambda m, a, k, nm=nm: getattr(m["M"], nm)(
+            a, mask=k, footprint=np.array([[1, 0, 1], [0, 0, 0], [1, 0, 1]], bool)))
+        add(nm, "float", "radius3.5", lambda m, a, k, nm=nm: getattr(m["M"], nm)(a, radius=3.5, mask=k))
     add("openlines", "float", "l5a45", lambda m, a, k: m["M"].openlines(a, linelength=5, dAngle=45, mask=k))
     add("openlines", "float", "l3a30", lambda m, a, k: m["M"].openlines(a, linelength=3, dAngle=30, mask=k))
     add("openlines", "float", "default", lambda m, a, k: m["M"].openlines(a, mask=k))
@@ -181,6 +186,8 @@ def _variants():
     add("canny", "float", "s1", lambda m, a, k: m["F"].canny(a, k, 1.0, 0.1, 0.2))
     add("canny", "float", "s0.5", lambda m, a, k: m["F"].canny(a, k, 0.5, 0.02, 0.05))
     add("canny", "float", "s2", lambda m, a, k: m["F"].canny(a, k, 2.0, 0.0, 0.01))
+    add("canny", "float", "s1hi", lambda m, a, k: m["F"].canny(a, k, 1.0, 0.5, 0.9))
+    add("circular_hough", "float", "r4n8", lambda m, a, k: m["F"].circular_hough(a, 4, nangles=8, mask=k))
     add("laplacian_of_gaussian", "float", "5,1", lambda m, a, k: m["F"].laplacian_of_gaussian(a, k, 5, 1.0))
     add("laplacian_of_gaussian", "float", "3,0.7", lambda m, a, k: m["F"].laplacian_of_gaussian(a, k, 3, 0.7))
     add("laplacian_of_gaussian", "float", "9,2", lambda m, a, k: m["F"].laplacian_of_gaussian(a, k, 9, 2.0))
@@ -216,6 +223,15 @@ def _variants():
     add("regional_maximum", "float", "cross_ties", lambda m, a, k: m["M"].regional_maximum(
         a, k, np.array([[0, 1, 0], [1, 1, 1], [0, 1, 0]], bool), True))
     add("regional_maximum", "float", "5x5_ties", lambda m, a, k: m["M"].regional_maximum(a, k, np.ones((5, 5), bool), True))
+    add("regional_maximum", "float", "5x5", lambda m, a, k: m["M"].regional_maximum(a, k, np.ones((5, 5), bool)))
+    add("regional_maximum", "float", "asym", lambda m, a, k: m["M"].regional_maximum(
+        a, k, np.array([[1, 1, 0], [0, 1, 0], [0, 0, 0]], bool)))
+    add("regional_maximum", "float", "asym_ties", lambda m, a, k: m["M"].regional_maximum(
+        a, k, np.array([[1, 1, 0], [0, 1, 0], [0, 0, 0]], bool), True))
+    add("regional_maximum", "float", "3x5", lambda m, a, k: m["M"].regional_maximum(a, k, np.ones((3, 5), bool)))
+    add("median_filter", "float", "r1", lambda m, a, k: m["F"].median_filter(a, k, 1))
+    add("median_filter", "int", "r2p0", lambda m, a, k: m["F"].median_filter(a, k, 2, 0))
+    add("median_filter", "int", "r4p100", lambda m, a, k: m["F"].median_filter(a, k, 4, 100))
     add("median_filter", "float", "r2", lambda m, a, k: m["F"].median_filter(a, k, 2))
     add("median_filter", "int", "r2int", lambda m, a, k: m["F"].median_filter(a, k, 2))
     add("median_filter", "int", "r3p25", lambda m, a, k: m["F"].median_filter(a, k, 3, 25))
